@@ -200,58 +200,153 @@ def slots(ctx, cname, own, rule):
             ctx.ok(rule, f, f.node, "delegates to %s" % deleg,
                    text_="%s.%s" % (cname, mname))
             continue
-        if kind == "assign":
-            _check_assign(ctx, rule, cname, f, own, other)
-            continue
-        want_op = table[mname]
-        ops = _ops_in(ctx, f, own, other)
-        boxed_other = other + "." + own
-        if cname == "CoordPayload":
-            boxed_other = other + ".payload"
-        if kind == "refl":
-            want = {(want_op, other, me)}
-        else:
-            want = {(want_op, me, boxed_other), (want_op, me, other)}
-        got = {_canon3(o, l, r) for o, l, r, _ in ops}
-        want = {_canon3(*w) for w in want}
-        if got != want:
-            wrong = sorted("%s %s %s" % (l, SYM.get(o, "?"), r) for o, l, r in got - want)
-            missing = sorted("%s %s %s" % (l, SYM.get(o, "?"), r) for o, l, r in want - got)
-            node = ops[0][3] if ops else f.node
-            ctx.bad(rule, f, node,
-                    "%s.%s must compute %s; it computes %s%s: the %s of two "
-                    "values differs from the same operator on the underlying "
-                    "values for unequal operands"
-                    % (cname, mname,
-                       " / ".join("%s %s %s" % (l, SYM[o], r) for o, l, r in sorted(want, key=str)),
-                       wrong or "nothing recognisable",
-                       (" and lacks %s" % missing) if missing else "",
-                       "result"),
-                    text_="%s.%s expression" % (cname, mname))
-            continue
-        # operand-kind guard: the boxed form only where `other` is a box
-        okg = True
-        for o, l, r, node in ops:
-            if getattr(node, "_c11_unboxed", False):
-                continue    # Payload.get() does the kind test itself
-            if r == boxed_other or l == boxed_other:
-                g = _guarded_by_isinstance(ctx, f, node, other,
-                                           {cname, "Payload"} if cname == "Payload"
-                                           else {cname})
-                if g is not True:
-                    okg = False
-        if not okg and kind != "refl":
-            ctx.bad(rule, f, ops[0][3], "%s.%s reads `%s` without testing that "
-                    "the operand is a %s" % (cname, mname, boxed_other, cname),
-                    text_="%s.%s guard" % (cname, mname))
-            continue
-        # result kind
-        if not _result_ok(ctx, f, kind, cname, own, ops):
-            continue
-        ctx.ok(rule, f, f.node, "computes `%s %s other` for both operand kinds "
-               "with the right result kind" % (me, SYM[want_op]),
-               text_="%s.%s" % (cname, mname))
+        _slot_by_cases(ctx, rule, cname, mname, f, own, other, kind,
+                       table[mname] if table else None)
     ctx.floor(rule, n, 16, "operator slots of %s" % cname)
+
+
+OPFUNC = {"add": ast.Add, "sub": ast.Sub, "mul": ast.Mult,
+          "truediv": ast.Div, "floordiv": ast.FloorDiv, "and_": ast.BitAnd,
+          "or_": ast.BitOr, "lshift": ast.LShift, "eq": ast.Eq,
+          "ne": ast.NotEq, "lt": ast.Lt, "le": ast.LtE, "gt": ast.Gt,
+          "ge": ast.GtE}
+
+
+def _op_term(e):
+    """(op type, left text, right text) of an operator application, else None."""
+    from ..symcase import norm
+    if isinstance(e, ast.BinOp):
+        return (type(e.op), norm(e.left), norm(e.right))
+    if isinstance(e, ast.Compare) and len(e.ops) == 1:
+        return (type(e.ops[0]), norm(e.left), norm(e.comparators[0]))
+    if isinstance(e, ast.Call) and text(e.func).startswith("operator.") and \
+            len(e.args) == 2 and not e.keywords and text(e.func)[9:] in OPFUNC:
+        return (OPFUNC[text(e.func)[9:]], norm(e.args[0]), norm(e.args[1]))
+    return None
+
+
+def _show(t):
+    return "%s %s %s" % (t[1], SYM.get(t[0], "?"), t[2])
+
+
+def _slot_by_cases(ctx, rule, cname, mname, f, own, other, kind, want_op):
+    """One operator slot, read case by case (the operand is a box / is not):
+    in each case the value returned (or stored, for the in-place forms) must
+    be the slot's own operator applied to the own value and the operand's
+    value, as a term -- however the method spells the case split
+    (sa/symcase.py)."""
+    from .. import symcase
+    from ..symcase import norm
+    me = "self." + own
+    boxed_other = other + "." + ("payload" if cname == "CoordPayload" else own)
+    classes = {cname, "Payload"} if cname == "Payload" else {cname}
+    label = "%s.%s" % (cname, mname)
+    for boxed in (True, False):
+        operand = boxed_other if boxed else other
+        casename = "a %s operand" % cname if boxed else "a plain operand"
+        ev = symcase.Evaluator(ctx, symcase.isinstance_decider(other, classes, boxed))
+        outs = ev.run(f)
+        bad = [o for o in outs if o.opaque]
+        if bad or not outs:
+            ctx.bad(rule, f, bad[0].opaque if bad else f.node,
+                    "%s cannot be followed statement by statement (loop / try "
+                    "/ with in an operator slot)" % label,
+                    text_="%s expression" % label)
+            return
+        if kind == "refl":
+            want = (want_op, other, me)
+        elif kind == "assign":
+            want = None
+        else:
+            want = (want_op, me, operand)
+        for o in outs:
+            if o.returned and isinstance(o.ret_stmt, ast.Raise):
+                continue
+            if kind in ("bin", "refl", "cmp"):
+                v = o.ret
+                node = o.ret_stmt or f.node
+                if cname == "Payload" and kind != "cmp":
+                    if not (isinstance(v, ast.Call) and text(v.func) == "Payload"
+                            and len(v.args) >= 1):
+                        ctx.bad(rule, f, node, "%s returns `%s` for %s, not a new "
+                                "Payload box" % (label, norm(v) or "nothing", casename),
+                                text_="%s result" % label)
+                        return
+                    v = v.args[0]
+                got = _op_term(v)
+                if got is None or _canon3(*got) != _canon3(*want):
+                    ctx.bad(rule, f, node,
+                            "%s must compute `%s` for %s; it returns `%s`: the "
+                            "result of two values differs from the same "
+                            "operator on the underlying values for unequal "
+                            "operands" % (label, _show(want), casename,
+                                          norm(o.ret) or "nothing"),
+                            text_="%s expression" % label)
+                    return
+                continue
+            # in-place forms and <<=: what is stored into the box
+            st = [x for x in o.stores if x[0] == me]
+            node = st[0][3] if st else f.node
+            if len(st) != 1 or len(o.stores) != 1:
+                ctx.bad(rule, f, node, "%s does not store exactly one value into "
+                        "%s for %s (stores: %s)"
+                        % (label, me, casename,
+                           [(t, norm(v)) for t, _, v, _ in o.stores] or "none"),
+                        text_="%s store" % label)
+                return
+            tgt, op, val, stmt = st[0]
+            if kind == "assign":
+                if cname == "Payload":
+                    good = op is None and norm(val) == operand
+                else:
+                    good = op is ast.LShift and norm(val) == operand
+                if not good:
+                    ctx.bad(rule, f, stmt,
+                            "%s stores `%s%s` for %s: `x <<= v` must replace the "
+                            "boxed value with %s (CoordPayload(1,4) <<= 6 must "
+                            "hold 6, not 4+6)"
+                            % (label, (SYM.get(op, "?") + "= ") if op else "",
+                               norm(val), casename, operand),
+                            text_="%s replacement" % label if cname != "Payload"
+                            else "%s.__ilshift__" % cname)
+                    return
+                continue
+            if op is None:
+                got = _op_term(val)
+            else:
+                got = (op, me, norm(val))
+            if got is None or _canon3(*got) != _canon3(*want) or \
+                    (op is None and kind == "inpl" and got[1] != me and
+                     want_op in (ast.Sub, ast.Div, ast.FloorDiv)):
+                ctx.bad(rule, f, stmt,
+                        "%s must store `%s` for %s; it stores `%s%s`: the "
+                        "result of two values differs from the same operator "
+                        "on the underlying values for unequal operands"
+                        % (label, _show(want), casename,
+                           (SYM.get(op, "?") + "= ") if op else "", norm(val)),
+                        text_="%s expression" % label)
+                return
+            if cname == "CoordPayload" and op is not None:
+                # the element-level in-place form must rest on a Payload
+                # in-place slot, else `self.payload OP= x` rebinds the
+                # attribute to a new box
+                pm = ctx.prog.cls("Payload")
+                if f.name not in pm.methods:
+                    ctx.bad(rule, f, stmt,
+                            "CoordPayload.%s applies `%s` to self.payload but "
+                            "Payload has no %s: Python falls back to the "
+                            "value-returning operator and rebinds self.payload "
+                            "to a new box, so the stored payload in the fiber "
+                            "is not updated" % (f.name, text(stmt)[:40], f.name),
+                            text_="CoordPayload.%s rests on missing Payload.%s"
+                            % (f.name, f.name))
+                    return
+    ctx.ok(rule, f, f.node, "case by case (operand boxed / plain) the slot "
+           "%s `%s %s <operand's value>`%s"
+           % ("stores" if kind in ("inpl", "assign") else "returns", me,
+              SYM.get(want_op, "<-"),
+              " in a new box" if cname == "Payload" and kind in ("bin", "refl") else ""),
+           text_=label)
 
 
 def _delegates(ctx, f, ci, table):
@@ -480,6 +575,9 @@ def r5(ctx):
     ]
     for mname, fiber_form, want, _ in forms:
         f = ctx.method("Fiber", mname)
+        if mname in ("__add__", "__mul__"):
+            _value_form(ctx, f, mname, fiber_form, want)
+            continue
         loops = []
         for n in f.own_nodes():
             if isinstance(n, ast.For):
@@ -518,6 +616,109 @@ def r5(ctx):
                         "FILTERED:self": "stored elements"}[want]))
             continue
         _check_form_body(ctx, f, mname, fiber_form, loops[0])
+
+
+def _iter_label(f, it):
+    got = None
+    if isinstance(it, ast.BinOp):
+        got = "BinOp:" + {ast.BitOr: "|", ast.BitAnd: "&", ast.LShift: "<<",
+                          ast.BitXor: "^", ast.Sub: "-"}.get(type(it.op), "?")
+        if not (text(it.left) == "self" and text(it.right) == f.params[1]):
+            got += "(operands %s)" % text(it)
+    elif isinstance(it, ast.Call) and isinstance(it.func, ast.Attribute) and \
+            text(it.func.value) == "self":
+        got = it.func.attr
+    elif text(it) == "self":
+        got = "FILTERED:self"
+    return got
+
+
+MEANS = {"BinOp:|": "union", "BinOp:&": "intersection",
+         "BinOp:<<": "destination driven by the source",
+         "iterShape": "whole shape", "iterShapeRef": "whole shape",
+         "FILTERED:self": "stored elements"}
+
+
+def _value_form(ctx, f, mname, fiber_form, want):
+    """`fiber + x` / `fiber * x`: under each operand kind the method returns
+    a new fiber whose coordinate and payload lists are built one element
+    per item of the co-iteration the operator names, the payload being the
+    operator applied to what that co-iteration delivers.  Read off the
+    method specialised to the case (loops with append and comprehensions
+    alike, also composed ones)."""
+    from .. import symcase
+    from ..symcase import norm
+    other = f.params[1]
+    form = "fiber" if fiber_form else "scalar"
+    key = "Fiber.%s %s form" % (mname, form)
+    stmts = symcase.specialise(f.body, symcase.isinstance_decider(other, {"Fiber"}, fiber_form))
+    rets = [s_ for s_ in stmts if isinstance(s_, ast.Return)]
+    maps = pat.list_maps_in(stmts)
+    v = rets[0].value if len(rets) == 1 else None
+    if isinstance(v, ast.Name):
+        ds = [s_ for s_ in stmts if isinstance(s_, ast.Assign) and len(s_.targets) == 1
+              and text(s_.targets[0]) == v.id]
+        v = ds[0].value if len(ds) == 1 else None
+    cm = pm = None
+    def as_map(a, tag):
+        if isinstance(a, ast.Name):
+            return pat.resolve_list_map(maps, a.id)
+        if isinstance(a, ast.ListComp) and len(a.generators) == 1 and \
+                not a.generators[0].ifs:
+            g = a.generators[0]
+            maps[tag] = (g.iter, g.target, a.elt, rets[0])
+            return pat.resolve_list_map(maps, tag)
+        return None
+    if isinstance(v, ast.Call) and len(v.args) >= 2 and not v.keywords and \
+            text(v.func).replace(" ", "") in ("self._newFiber", "Fiber"):
+        cm = as_map(v.args[0], "<coords>")
+        pm = as_map(v.args[1], "<payloads>")
+    if cm is None or pm is None or cm[3] is not pm[3] and \
+            (norm(cm[0]), norm(cm[1])) != (norm(pm[0]), norm(pm[1])):
+        ctx.bad("C11.R5", f, f.node, "Fiber.%s: cannot find the single loop "
+                "of its %s form (the result must be a new fiber built from two "
+                "lists filled one element per item of one iteration)"
+                % (mname, form), text_=key)
+        return
+    it, tg, pelt, node = pm
+    got = _iter_label(f, it)
+    if got != want:
+        ctx.bad("C11.R5", f, node,
+                "Fiber.%s (%s operand) iterates `%s` instead of %s: the "
+                "result is no longer the elementwise %s over the %s"
+                % (mname, form, text(it), want,
+                   "sum" if "add" in mname else "product", MEANS[want]))
+        return
+    ctx.ok("C11.R5", f, node, "%s form iterates %s" % (form, want))
+    sym = "+" if mname == "__add__" else "*"
+    ok = False
+    cname = None
+    if isinstance(tg, ast.Tuple) and len(tg.elts) == 2 and isinstance(tg.elts[0], ast.Name):
+        cname = tg.elts[0].id
+        pe = norm(pelt)
+        if fiber_form and isinstance(tg.elts[1], ast.Tuple):
+            names = [text(e) for e in tg.elts[1].elts]
+            if mname == "__add__":
+                ok = len(names) == 3 and pe == "%s+%s" % (names[1], names[2])
+            else:
+                ok = len(names) == 2 and pe == "%s*%s" % tuple(names)
+        elif not fiber_form and isinstance(tg.elts[1], ast.Name):
+            p_ = tg.elts[1].id
+            ok = pe in ("%s%s%s.value" % (other, sym, p_), "%s.value%s%s" % (p_, sym, other),
+                        "%s%s%s" % (p_, sym, other), "%s%s%s" % (other, sym, p_))
+    okc = cname is not None and norm(cm[2]) == cname
+    if ok and okc:
+        ctx.ok("C11.R5", f, node, "each element: the delivered coordinate with the "
+               "%s of the delivered payloads" % ("sum" if sym == "+" else "product"))
+    else:
+        ctx.bad("C11.R5", f, node, "Fiber.%s (%s form) must pair each delivered "
+                "coordinate with %s; it builds (`%s`, `%s`) per `%s`"
+                % (mname, form,
+                   ("the %s of the two delivered payloads" if fiber_form else
+                    "other %s the element's value") % ("sum" if fiber_form and sym == "+"
+                                                       else "product" if fiber_form else sym),
+                   norm(cm[2]), norm(pelt), text(tg)),
+                text_="Fiber.%s %s body" % (mname, form))
 
 
 def _under_fiber_test(ctx, f, node):
